@@ -164,6 +164,15 @@ type zzCell struct {
 // zzReport runs balanceRunner.execute and returns the report rows (rows
 // without any text are dropped, as the CSV renderer does).
 func zzReport(r *balanceRunner, build func(reg *model.Registry) *journal.Builder) ([][]zzCell, error) {
+	return zzReportVia(r, func(exec func(cmd *cobra.Command, args []string) error) (string, error) { return zzRun(build, exec) })
+}
+
+// zzReportText: as zzReport for a journal given as text.
+func zzReportText(r *balanceRunner, text string) ([][]zzCell, error) {
+	return zzReportVia(r, func(exec func(cmd *cobra.Command, args []string) error) (string, error) { return zzRunText(text, exec) })
+}
+
+func zzReportVia(r *balanceRunner, run func(exec func(cmd *cobra.Command, args []string) error) (string, error)) ([][]zzCell, error) {
 	var captured *table.Table
 	if v.Symbolic() {
 		v.Override("(*github.com/sboehler/knut/lib/common/table.TextRenderer).Render", func(tr *table.TextRenderer, t *table.Table, w io.Writer) error {
@@ -173,7 +182,7 @@ func zzReport(r *balanceRunner, build func(reg *model.Registry) *journal.Builder
 	} else {
 		r.csv = true
 	}
-	out, err := zzRun(build, func(cmd *cobra.Command, args []string) error { return r.execute(cmd, args) })
+	out, err := run(func(cmd *cobra.Command, args []string) error { return r.execute(cmd, args) })
 	if err != nil {
 		return nil, err
 	}
